@@ -32,6 +32,8 @@ type progCase struct {
 	TimeoutMs int    `json:"timeout_ms"`
 	HostErr   string `json:"hosterr"` // shape of the error returned by the host function "hostfail" (see hostErrMode)
 	Via       string `json:"via"`     // "" | "clone-replace": run a Clone() whose bytecode was detached by ReplaceBuiltinModule
+	Path      string          `json:"path"`   // hostile: "" Compiled.RunContext(timeout ctx) | "compiled-bg" | "script-bg" | "script-timeout"
+	Repair    [][]interface{} `json:"repair"` // hostile: variables to Set after the first run; the re-run must then succeed
 	Weird     string `json:"weird"`    // module "weird": a custom Importable returning this kind of plain object
 	StateMod  bool   `json:"statemod"` // builtin module "st" with mutable container attributes
 }
